@@ -520,6 +520,17 @@ def E4_cml(repo, clause):
         ok = keys == ["id", "elementType", "x3", "y3", "z3"]
         src = lc.generators[0].iter
     obs.append(Ob("E4", clause, fn, tup[0] if tup else fn.node, ok, "id, elementType, x3, y3, z3 are read from the same atom entry, coordinates as float", slot="same-row"))
+    order_ok = False
+    detail_o = "source of the atom tuples not recognised"
+    if len(tup) == 1:
+        srce = expand(fn, tup[0].generators[0].iter)
+        reorder = [c for c in ast.walk(srce) if isinstance(c, ast.Call) and call_name(c) in ("sorted", "reversed", "set", "frozenset", "shuffle", "unique")]
+        inplace = [c for c in calls_in(fn) if isinstance(c.func, ast.Attribute) and c.func.attr in ("sort", "reverse") and isinstance(c.func.value, ast.Name)]
+        from_findall = any(isinstance(c, ast.Call) and call_name(c) == "findall" for c in ast.walk(srce))
+        order_ok = from_findall and not reorder and not inplace and not tup[0].generators[0].ifs
+        detail_o = "atom entries are used in the order the document lists them (source %s; reordering calls: %s)" % (
+            ast.unparse(srce)[:60], [call_name(c) for c in reorder] + [c.func.attr for c in inplace] or "none")
+    obs.append(Ob("E4", clause, fn, tup[0] if tup else fn.node, order_ok, detail_o, slot="document-order"))
     # unpack order and positions = [x,y,z].T
     un = [n for n in fn.own_nodes() if isinstance(n, ast.Assign) and isinstance(n.targets[0], ast.Tuple) and len(n.targets[0].elts) == 5]
     names = [e.id for e in un[0].targets[0].elts] if un else []
@@ -823,6 +834,16 @@ def E_enumeration_shape(repo, clause):
         ok = bool(over_nodes) and comb and [getattr(e, "id", None) for e in lc[0].elt.elts] == [a, center, b] and not g.ifs
     obs.append(Ob("E10", clause, ca, lc[0] if lc else ca.node, ok, "angles = every 2-combination of the neighbours of every node, centre in the middle slot", slot="angles"))
     for f in (ca, repo.fn("calc_dihedrals")):
+        acc = [n.target.id for n in f.own_nodes() if isinstance(n, ast.AugAssign) and isinstance(n.op, ast.Add) and isinstance(n.target, ast.Name)]
+        rets = [n for n in f.own_nodes() if isinstance(n, ast.Return)]
+        r_ok = False
+        if len(rets) == 1 and len(acc) == 1:
+            rv = expand(f, rets[0].value)
+            r_ok = isinstance(rv, ast.Call) and call_name(rv) == "array" and len(rv.args) == 1 and isinstance(rv.args[0], ast.Name) and rv.args[0].id == acc[0]
+            if isinstance(rv, ast.Name) and rv.id == acc[0]:
+                r_ok = True
+        obs.append(Ob("E10", clause, f, rets[0] if rets else f.node, r_ok,
+                      "every enumerated term is returned: the result is the accumulated list itself, not a filtered or de-duplicated version of it", slot="%s:returns-all" % f.name))
         g_ok = any(isinstance(c, ast.Call) and ast.unparse(c.func).endswith("add_edges_from") and c.args and isinstance(c.args[0], ast.Name) and c.args[0].id == f.params[0]
                    for c in ast.walk(f.node)) and any(isinstance(c, ast.Call) and ast.unparse(c.func) in ("nx.Graph",) for c in ast.walk(f.node))
         obs.append(Ob("E10", clause, f, f.node, g_ok, "an undirected simple graph is built from exactly the given bond list (direction and duplicates are irrelevant)",
